@@ -11,7 +11,7 @@ GENERIC_NOTE = (
     "generated inputs (sampling residual); harness adapters/canonicalisers. "
 )
 
-T_GENERIC = "Lean 4 proof (structural induction / invariants / case analysis) + model-vs-implementation correspondence (differential, real code in-process) + Lean spec checker as oracle on the implementation's output"
+T_GENERIC = "Lean 4 proof (structural induction / invariants / case analysis) + model-vs-implementation correspondence (differential, real code in-process) + Lean spec checker as oracle on the implementation's output; #print axioms audit on every run, leanchecker re-check of the compiled property module in the thorough tier"
 
 CLAIMED = {
     "C01": dict(engine="rev", ref="6/C01",
